@@ -68,6 +68,7 @@ class Ctx:
         self.pk = {}
         self.hcx = False                  # what `caller` names here is left open by the property (def nested in a call tag)
         self.in_callc = False             # lexically inside a call tag
+        self.freeze_loop = False          # block under a for: its own fors must not rebind `loop` (see c03.loop_in_block_family)
 
     def child(self, **kw):
         c = copy.copy(self)
@@ -171,7 +172,7 @@ class Gen:
         return ps
 
     # ---- defs
-    def gen_def(self, key, ctx, depth, blk=False, flags=None, params=None, dec=None, nd=False):
+    def gen_def(self, key, ctx, depth, blk=False, flags=None, params=None, dec=None, nd=False, toplevel=False):
         r = self.rng
         if flags is None:
             flags = list(r.choice(self.p["flags"]))
@@ -188,9 +189,12 @@ class Gen:
                  body=[], bsig=self.gen_bsig() if not blk else ctx.bsig, nested=[], home=ctx.tmpl)
         self.defs[key] = d
         if blk:
-            fctx = ctx.function(ret_ok=(not flags) or self.p["ret_in_flagged"], in_def=True)
+            fctx = ctx.function(ret_ok=(not flags) or self.p["ret_in_flagged"], in_def=True,
+                                freeze_loop=ctx.freeze_loop or (ctx.loop_refs > 0 and not ctx.no_loop))
         else:
-            fctx = ctx.function(bsig=d["bsig"], loop_refs=0, no_loop=False, under_for=False,
+            # (an inline def shares or does not share the enclosing function's LoopStack depending on whether that
+            #  function reads `loop`: what loop.parent is in its outermost loop is left open -> no `loop` reads there)
+            fctx = ctx.function(bsig=d["bsig"], loop_refs=0, no_loop=not toplevel, under_for=False, freeze_loop=False,
                                 ret_ok=(not flags) or self.p["ret_in_flagged"], in_def=True, in_else=False, hcx=nd or ctx.hcx)
             if fctx.hcx:
                 fctx.bsig = None
@@ -303,7 +307,7 @@ class Gen:
         d = r.choice(ctx.callable)
         de = self.defs[d]
         parts = self.call_part(ctx, d)
-        bctx = ctx.function(loop_refs=0, ret_ok=True, no_loop=ctx.no_loop or (ctx.under_for and not self.p["loop_in_body_under_for"]),
+        bctx = ctx.function(loop_refs=0, ret_ok=True, freeze_loop=False, no_loop=ctx.no_loop or (ctx.under_for and not self.p["loop_in_body_under_for"]),
                             in_else=False, hcx=False, in_callc=True)
         bctx.vars = [p["n"] for p in de["bsig"]]
         bctx.pk = {}
@@ -342,7 +346,10 @@ class Gen:
 
     def g_for(self, ctx, depth):
         r = self.rng
-        a = self.gen_suite(ctx.child(loop_refs=ctx.loop_refs + 1, in_loop=True, under_for=True), depth - 1)
+        if ctx.freeze_loop:
+            a = self.gen_suite(ctx.child(loop_refs=0, no_loop=True, in_loop=True, under_for=True), depth - 1)
+        else:
+            a = self.gen_suite(ctx.child(loop_refs=ctx.loop_refs + 1, in_loop=True, under_for=True), depth - 1)
         els = self.gen_suite(ctx.child(in_else=True, under_for=True), depth - 1) if r.random() < .35 else []
         return dict(k="for", n=r.choice([0, 1, 2, 2, 3]), sized=r.random() < .7, a=a, els=els, has_else=bool(els) or r.random() < .2)
 
@@ -367,7 +374,7 @@ class Gen:
         for i in range(r.randint(*self.p["ndefs"])):
             key = "d%d" % i
             c = Ctx(names)
-            self.gen_def(key, c, self.p["def_depth"])
+            self.gen_def(key, c, self.p["def_depth"], toplevel=True)
             names.append(key)
         incs = []
         for i in range(self.nincs):
